@@ -211,10 +211,9 @@ def corpus(surface):
     ev = {"t": "bvm", "to": "c:store", "m": "CrossInvokeEVM", "args": [["s", "0x00000000000000000000000000000000000000ff"], ["bs", "junk"]]}
     out.append(h([dict(tx=dict(ev, **{"from": "u:1"}), dtx=dtx("PfNotIbtp", True, "(BBvm (BcCall %s [AStr; ABytes] BOk false))" % sig_evm, False), tag="promoted_evm_poor")], gas=1))
     out.append(h([dict(tx=dict(ev, **{"from": "u:0"}), dtx=dtx("PfNotIbtp", True, "(BBvm (BcCall %s [AStr; ABytes] BOk false))" % sig_evm, True), tag="promoted_evm_rich")], gas=1))
-    # (since e7e0c80d InterBroker.InvokeInterchain is callable only by the interchain contract: the direct call is refused - BErr)
     ii = {"t": "bvm", "to": "c:interbroker", "m": "InvokeInterchain", "args": [["ibtp", X.ibtp(1, to=tob, payload="content:foo")]]}
-    out.append(h([dict(tx=dict(ii, **{"from": "u:1"}), dtx=dtx("PfNotIbtp", True, "(BBvm (BcCall %s [ABytes] BErr true))" % sig_ii, False), tag="invoke_interchain_poor")], gas=1))
-    out.append(h([dict(tx=dict(ii, **{"from": "u:0"}), dtx=dtx("PfNotIbtp", True, "(BBvm (BcCall %s [ABytes] BErr true))" % sig_ii, True), tag="invoke_interchain_rich")], gas=1))
+    out.append(h([dict(tx=dict(ii, **{"from": "u:1"}), dtx=dtx("PfNotIbtp", True, "(BBvm (BcCall %s [ABytes] BOk true))" % sig_ii, False), tag="invoke_interchain_poor")], gas=1))
+    out.append(h([dict(tx=dict(ii, **{"from": "u:0"}), dtx=dtx("PfNotIbtp", True, "(BBvm (BcCall %s [ABytes] BOk true))" % sig_ii, True), tag="invoke_interchain_rich")], gas=1))
     out.append(h([dict(tx={"t": "ibtp", "from": "u:0", "ibtp": X.ibtp(1, frm="1356:chainW:svc1"), "proof": {"kind": "hex", "hex": b"0no".hex()}},
                        dtx=dtx("PfRejectedFalse", True, "(BIbtp BUnknown)", True), tag="rule_false")]))
     out.append(h([dict(tx={"t": "ibtp", "from": "u:0", "ibtp": X.ibtp(1, frm="1356:chainW:svc1"), "proof": {"kind": "hex", "hex": b"1yes".hex()}},
